@@ -51,6 +51,13 @@ TAGS = [
     "{% if A < B %}x{% endif %}", "{% if A contains B %}x{% endif %}", "{% if A == B %}x{% endif %}", "{% case A %}{% when B %}x{% endcase %}", "{% cycle A, B %}", "{% assign z = A | plus: B %}{{ z }}",
     "{{ A[B] }}", "{{ l[A] }}", "{{ d[A] }}", "{% increment A %}", "{% capture c %}{{ A }}{% endcapture %}{{ c | size }}", "{% unless A >= B %}x{% endunless %}", "{{ A | default: B }}", "{% echo A | append: B %}",
     "{% liquid assign q = A | times: B\necho q %}", "{{ [A] }}", "{% ifchanged %}{{ A }}{% endifchanged %}",
+    "{% translate count: A %}s {{ count }}{% plural %}p {{ count }}{% endtranslate %}", "{% translate context: A, x: B %}s {{ x }}{% endtranslate %}", "{% with a: A %}{{ a | plus: B }}{% endwith %}", "{{ A | t: plural: B, count: A }}",
+]
+
+# render data that is named like configuration but is not what the library expects
+SPECIAL = [
+    ("{{ 'x' | t }}", {"translations": 5}), ("{{ 'x' | gettext }}", {"translations": "nope"}), ("{{ 'x' | ngettext: 'y', 2 }}", {"translations": [1]}), ("{% translate %}x{% endtranslate %}", {"translations": 5}),
+    ("{{ 1 | currency }}", {"locale": 5}), ("{{ 'now' | date: '%Y' }}", {"timezone": 5}), ("{{ x | size }}", {"x": range(10**30)}), ("{{ x | first }}{{ x | last }}", {"x": range(10**30)}),
 ]
 
 
@@ -107,6 +114,12 @@ def run(tier, seed):
             err = render(env, src, POOL)
             if err:
                 viol.append({"id": "non-liquid-exception", "witness": f"parse:{src[:16]}:{err.split(':')[0]}", "source": src, "got": err, "mode": mode})
+    for mode, env in envs():
+        for src, data in SPECIAL:
+            cases += 1
+            err = render(env, src, data)
+            if err:
+                viol.append({"id": "non-liquid-exception", "witness": f"config-like-data:{sorted(data)[0]}:{err.split(':')[0]}", "source": src + f" with {data!r}", "got": err, "mode": mode, "data": {k: repr(v) for k, v in data.items()}})
     return {"bound": f"every registered filter x {len(POOL)} left values x 0..2 arguments (quick: second argument position restricted); {len(TAGS)} tag templates x pool^2 x 3 modes; {len(MALFORMED)} malformed sources x 3 modes", "cases": cases, "distinct": cases, "violations": viol, "sample": {"source": "{{ sinf | ceil }}"}}
 
 
